@@ -443,6 +443,11 @@ type harness struct {
 	// the state file that the most recent state save replaced (and removed), and the scenario line of that save
 	removedState  *stateFileCopy
 	removedAt     int
+	// what was acknowledged BEFORE the most recent config / webhook / endpoint call (a kill inside the state
+	// save of that call may show either)
+	preConfig    manager.Config
+	preHooks     []string
+	preEndpoints []string
 	convInFlight  bool            // a converter job is in flight: what it cached is not "current data" for the tags yet
 	detached      map[string]bool // converter -> detached from its last tag and not attached (or used on demand) since
 	convHeld      bool            // conversions are held in flight (op `convhold on`): the converter job cannot reach its gate
@@ -1331,6 +1336,13 @@ func (h *harness) step(line string) (event, error) {
 	case "config", "webhook", "endpoint":
 		// settings and endpoints (C12: they survive a restart); not part of the service-loop model
 		var err error
+		h.preConfig = h.mgr.Config()
+		h.preHooks = append([]string(nil), h.mgr.ListPcapProcessorWebhooks()...)
+		h.preEndpoints = nil
+		for _, e := range h.mgr.ListPcapOverIPEndpoints() {
+			h.preEndpoints = append(h.preEndpoints, e.Address)
+		}
+		sort.Strings(h.preEndpoints)
 		switch f[0] {
 		case "config":
 			err = h.mgr.SetConfig(manager.Config{AutoInsertLimitToQuery: f[1] == "1"})
@@ -2059,7 +2071,9 @@ func gen(seed uint64, n int, w io.Writer) {
 			}
 			if r.Chance(1, 2) {
 				// a kill inside the state save of the call just made (old and new state file both on disk)
-				fmt.Fprintf(w, "crashcheck 100\n")
+				// (100: all operations but the last done; 101, 102: shorter prefixes of the operation sequence of
+				// saveState as read from the source; no random draw)
+				fmt.Fprintf(w, "crashcheck %d\n", 100+i%3)
 			}
 		}
 		if genSlowConv && r.Chance(1, 6) {
